@@ -363,6 +363,13 @@ func init() {
 			cUpdate("d", "c", true, bD(), bD("$push", bD("tags", bD("$each", bson.A{}, "$slice", int32(0)))), false),
 			cCreateIndex("d", "c", bD("t", int32(1)), idxOpt{expire: i32(0)}),
 			cCreateIndex("d", "fs.files", bD("filename", int32(1)), idxOpt{unique: true}),
+			// the next commit is rejected by the store: what was written by the last successful one is what a reopen finds
+			e1.Call{Name: "env.NextStoreFails", Do: func(w *world.World) string {
+				if w.Store != nil {
+					w.Store.FailNext = 1
+				}
+				return "ok"
+			}},
 		)
 		depth := 3
 		if !c.Quick() {
@@ -373,6 +380,13 @@ func init() {
 				w := world.New()
 				w.Store.KeepImage = true
 				return w
+			},
+			// (a pending store failure is part of the state)
+			Key: func(w *world.World) string {
+				if w.Store != nil && w.Store.FailNext > 0 {
+					return "store-fails-next\n" + w.Key()
+				}
+				return w.Key()
 			},
 			After: func(w *world.World, path []int, pre interface{}, obs string) {
 				atomic.AddInt64(&stateCases, 1)
